@@ -33,7 +33,7 @@ class C07(Case):
         classes = [None] * n
         if sp.get("mixed"):
             classes[1] = Other
-        items = S.make_objects(mk, Item, "x", n, extra=tuple(e for e in ("f", "t", "d", "s") if e in need), classes=classes)
+        items = S.make_objects(mk, Item, "x", n, extra=tuple(e for e in ("f", "t", "d", "s", "sl") if e in need), classes=classes)
         log = []
 
         def gen():
